@@ -290,6 +290,7 @@ def run(P, R, tier):
                     "exchange and surface activity conventions (gflag 4, 6)", "Pitzer and SIT excess-energy sums, Gibbs-Duhem consistency, water activity / osmotic coefficient"]
     water_rule(P, R)
     sitpair_rule(P, R)
+    slotreset_rule(P, R)
     present_rule(P, R)
     llnlbracket_rule(P, R)
     # ------------------------------------------------------------------ writers of gflag
@@ -740,3 +741,64 @@ def sitpair_rule(P, R):
                         "and osmotic coefficient do not come from one excess Gibbs energy (Gibbs-Duhem fails)" % (inc[osm[0]], lhs), file=f["file"], line=pth[0][1], function=f["q"])
     if n < 1:
         R.anchor_missing(RULE, "sit(): no path through the epsilon case")
+
+
+def slotreset_rule(P, R):
+    """pitzer_make_lists / sit_make_lists rebuild, for every model, the per-slot tables the activity-coefficient routines read: IPRSNT[i]
+    (species present) and M[i] (its molality).  The tables live as long as the database, and a slot is written with the values of the
+    current model only under `spec[i] != NULL && spec[i]->in == TRUE`.  Every slot the loop visits must therefore first be reset
+    unconditionally - a direct statement of the loop body with the loop variable as subscript - or a species of an earlier calculation
+    stays "present" with its old molality: its interaction terms enter log gamma and the osmotic sum of the new solution, while it counts
+    neither in the total molality nor in the ionic strength, and Gibbs-Duhem fails."""
+    RULE = "C16.slotreset"
+    R.rule(RULE, "pitzer_make_lists / sit_make_lists: every per-slot table that is filled under a condition is reset unconditionally for the same slot first", minimum=4)
+    n = 0
+    for q in ("Phreeqc::pitzer_make_lists", "Phreeqc::sit_make_lists"):
+        f = P.one(q)
+        for lp in T.walk(f["body"]):
+            if lp[0] != "For" or not T.is_node(lp[3]) or lp[3][0] != "Bin":
+                continue
+            v = T.strip_casts(lp[3][3])
+            if not (T.is_node(v) and v[0] == "Ref"):
+                continue
+            var = v[3]
+            body = lp[5]
+            direct = body[2] if T.is_node(body) and body[0] == "Compound" else [body]
+
+            def slot_of(t):
+                """name of the array member when t is A[var]"""
+                t = T.strip_casts(t)
+                if T.is_node(t) and t[0] == "Call" and T.callee_name(t) == "operator[]" and len(t[4]) == 2:
+                    a, i = T.strip_casts(t[4][0]), T.strip_casts(t[4][1])
+                elif T.is_node(t) and t[0] == "Index":
+                    a, i = T.strip_casts(t[2]), T.strip_casts(t[3])
+                else:
+                    return None
+                if T.is_node(a) and a[0] == "Member" and T.is_node(i) and i[0] == "Ref" and i[3] == var:
+                    return a[2].split("::")[-1]
+                return None
+            cond_written, reset = {}, set()
+            for st in direct:
+                if not T.is_node(st):
+                    continue
+                if st[0] == "Bin" and st[2] == "=":
+                    a = slot_of(st[3])
+                    if a and not cond_written.get(a):
+                        reset.add(a)
+                elif st[0] in ("If", "Compound", "For", "While"):
+                    for t, how, line, w in T.writes(st):
+                        a = slot_of(t)
+                        if a and how == "=":
+                            cond_written.setdefault(a, line)
+            for a, line in sorted(cond_written.items()):
+                if not ("IPRSNT" in a or a.endswith("_M") or a == "M"):
+                    continue
+                n += 1
+                inst = "%s:%s" % (q.split("::")[-1], a)
+                if a in reset:
+                    R.ok(RULE, inst, "%s[%s] reset unconditionally before it is filled (line %d)" % (a, var, line))
+                else:
+                    R.violation(RULE, inst, "%s[%s] is filled only for species of the current model (line %d) and not reset for the other slots the loop visits: a species of an "
+                                "earlier calculation stays present with its old molality" % (a, var, line), file=f["file"], line=line, function=q)
+    if n < 4:
+        R.anchor_missing(RULE, "only %d conditionally filled per-slot tables found" % n)
